@@ -3,7 +3,10 @@
 Everything here works on the *facts* (MIR of /repo's current tree as dumped by the nlfacts
 driver); nothing executes code of the crate.
 """
+import copy
 import json
+import os
+import re
 from collections import defaultdict, deque
 
 
@@ -301,21 +304,151 @@ def span_loc(sp):
     return '%s:%d' % (short_file(sp['file']), sp['line'])
 
 
+# ----------------------------------------------------------------------------------------
+# MIR inlining of *new helper functions*.
+#
+# The rules anchor on the functions of the pinned tree (pinned_fns.json).  A later change may move part of an
+# anchored body into a fresh private helper (`resolve_index`, `call_base`, `pop_args` ...).  Such a helper is not
+# a role any rule knows, so it is made transparent: its body is spliced into every caller (locals, blocks and
+# promoted constants renumbered), which preserves the semantics of the MIR exactly and lets every per-function
+# analysis (dominators, def chains, AbsInt, the panic census) see the code where it is used, with the caller's
+# facts about the arguments.  On the pinned tree no function is new, so this is the identity there.
+# ----------------------------------------------------------------------------------------
+_LOCAL_IN_TEXT = re.compile(r'(?<![A-Za-z0-9_])_(\d+)\b')
+
+
+def _remap(x, loff, boff, poff):
+    if isinstance(x, list):
+        return [_remap(y, loff, boff, poff) for y in x]
+    if not isinstance(x, dict):
+        return x
+    out = {}
+    for k, v in x.items():
+        if k in ('local', 'index') and isinstance(v, int) and not isinstance(v, bool):
+            out[k] = v + loff
+        elif k in ('target', 'unwind', 'otherwise') and isinstance(v, int) and not isinstance(v, bool):
+            out[k] = v + boff
+        elif k == 'targets':
+            out[k] = [[a, b + boff] for a, b in v]
+        elif k == 'promoted' and isinstance(v, int) and not isinstance(v, bool):
+            out[k] = v + poff
+        elif k in ('text', 'msg_full') and isinstance(v, str):
+            out[k] = _LOCAL_IN_TEXT.sub(lambda m: '_%d' % (int(m.group(1)) + loff), v)
+        else:
+            out[k] = _remap(v, loff, boff, poff)
+    return out
+
+
+def inline_new_helpers(fns_by_path, pinned, max_inlines=60, max_callee_blocks=400):
+    """fns_by_path: {path: fn json} of one crate.  Splices every call to a function that is not in `pinned`
+    (and is a plain fn / method with a body in the same crate) into its caller.  Returns {caller: [helpers]}."""
+    new = {p for p, j in fns_by_path.items() if p not in pinned and j.get('def_kind') in ('Fn', 'AssocFn')
+           and len(j['blocks']) <= max_callee_blocks}
+    done = {}
+    if not new:
+        return done
+    originals = {p: copy.deepcopy(fns_by_path[p]) for p in new}
+    for path, j in fns_by_path.items():
+        n = 0
+        bi = 0
+        while bi < len(j['blocks']) and n < max_inlines:
+            bl = j['blocks'][bi]
+            t = bl['term']
+            bi += 1
+            if t['k'] != 'call':
+                continue
+            c = t['callee']
+            cp = c.get('resolved') if c.get('resolved_local') else (c.get('path') if c.get('local') else None)
+            if cp not in new or cp == path or cp in bl.get('inl', ()):
+                continue
+            cj = originals[cp]
+            if len(t['args']) != cj['arg_count']:
+                continue
+            loff, boff, poff = len(j['locals']), len(j['blocks']), len(j.get('promoted') or [])
+            stack = tuple(bl.get('inl', ())) + (cp,)
+            for l in cj['locals']:
+                l2 = dict(l)
+                l2['i'] = l['i'] + loff
+                l2['inl'] = cp
+                j['locals'].append(l2)
+            for pr in cj.get('promoted') or []:
+                pr2 = copy.deepcopy(pr)
+                pr2['i'] = pr['i'] + poff
+                j.setdefault('promoted', []).append(pr2)
+            for cb in cj['blocks']:
+                nb = _remap(cb, loff, boff, poff)
+                nb['i'] = cb['i'] + boff
+                nb['inl'] = stack
+                tt = nb['term']
+                if tt['k'] == 'return':
+                    nb['stmts'].append({'k': 'assign', 'place': t['dest'],
+                                        'rv': {'k': 'use', 'op': {'k': 'move', 'place': {'local': loff, 'proj': [], 'ty': cj['locals'][0]['ty'], 'text': '_%d' % loff}}},
+                                        'span': t['span'], 'inl_ret': cp})
+                    if t.get('target') is not None:
+                        nb['term'] = {'k': 'goto', 'target': t['target']}
+                    else:
+                        nb['term'] = {'k': 'unreachable'}
+                elif tt['k'] == 'resume' and isinstance(t.get('unwind'), int):
+                    nb['term'] = {'k': 'goto', 'target': t['unwind']}
+                j['blocks'].append(nb)
+            for i, a in enumerate(t['args']):
+                lt = cj['locals'][i + 1]['ty']
+                bl['stmts'].append({'k': 'assign', 'place': {'local': loff + i + 1, 'proj': [], 'ty': lt, 'text': '_%d' % (loff + i + 1)},
+                                    'rv': {'k': 'use', 'op': a}, 'span': t['span'], 'inl_arg': cp})
+            bl['term'] = {'k': 'goto', 'target': boff, 'inl_call': cp, 'span': t['span']}
+            n += 1
+            done.setdefault(path, []).append(cp)
+    return done
+
+
+def load_pinned():
+    p = os.path.join(os.path.dirname(os.path.abspath(__file__)), 'pinned_fns.json')
+    if not os.path.exists(p):
+        return None
+    return json.load(open(p))
+
+
 class Facts:
     def __init__(self, lib_path, bin_path=None):
         self.lib = json.load(open(lib_path))
         self.bin = json.load(open(bin_path)) if bin_path else None
         self.fns = {}
         self.all_fns = []
+        self.inlined = {}
+        pinned = load_pinned()
         for crate, d in (('lib', self.lib), ('bin', self.bin)):
             if not d:
                 continue
+            if pinned is not None:
+                byp = {}
+                for fj in d['fns']:
+                    byp.setdefault(fj['path'], fj)
+                done = inline_new_helpers(byp, set(pinned[crate]))
+                for k_, v_ in done.items():
+                    self.inlined[(crate, k_)] = v_
+                gone = {h for v_ in done.values() for h in v_}
+                self.transparent = getattr(self, 'transparent', set()) | {(crate, h) for h in gone}
             for fj in d['fns']:
                 f = Fn(fj, crate)
                 key = f.path if crate == 'lib' else 'bin::' + f.path
                 # closures have unique paths ({closure#n}); keep first on collision
                 self.fns.setdefault(key, f)
                 self.all_fns.append(f)
+        # a new helper whose every call site was spliced away is no longer a function of the analysed program
+        if getattr(self, 'transparent', None):
+            still = set()
+            for f in self.all_fns:
+                for b, t in f.calls():
+                    for p_ in callee_paths(t):
+                        still.add((f.crate, p_))
+                    for a in t['args']:
+                        if a.get('k') == 'const' and 'fn' in a:
+                            still.add((f.crate, a['fn']))
+            drop = {x for x in self.transparent if x not in still}
+            self.all_fns = [f for f in self.all_fns if (f.crate, f.path) not in drop]
+            for crate, p_ in drop:
+                self.fns.pop(p_ if crate == 'lib' else 'bin::' + p_, None)
+            self.dropped = sorted(drop)
         self.adts = {a['path']: a for a in self.lib['adts']}
         self.consts = {c['path']: c for c in self.lib['consts']}
         self.impls = self.lib['impls']
@@ -413,7 +546,7 @@ def idx_token(iv):
 
 
 class Path:
-    __slots__ = ('blocks', 'env', 'constraints', 'calls', 'exit', 'exit_block', 'asserts', 'writes')
+    __slots__ = ('blocks', 'env', 'constraints', 'calls', 'exit', 'exit_block', 'asserts', 'writes', 'cpos', 'callpos', 'snaps')
 
     def __init__(self):
         self.blocks = []
@@ -424,6 +557,9 @@ class Path:
         self.writes = []        # (block, place key (resolved), value)
         self.exit = None
         self.exit_block = None
+        self.cpos = []          # position in .blocks of every constraint
+        self.callpos = []       # position in .blocks of every call
+        self.snaps = []         # (position, block, env copy) for watched blocks, taken before the terminator
 
     def clone(self):
         p = Path()
@@ -433,6 +569,9 @@ class Path:
         p.calls = list(self.calls)
         p.asserts = list(self.asserts)
         p.writes = list(self.writes)
+        p.cpos = list(self.cpos)
+        p.callpos = list(self.callpos)
+        p.snaps = list(self.snaps)
         return p
 
     def call_names(self):
@@ -449,7 +588,8 @@ STD_ENUMS = {
 
 class AbsInt:
     def __init__(self, facts, fn, init_env=None, stop_blocks=(), loop_bound=2, max_paths=20000,
-                 decide_call=None):
+                 decide_call=None, watch=()):
+        self.watch = set(watch)
         self.facts = facts
         self.fn = fn
         self.init_env = init_env or {}
@@ -720,6 +860,8 @@ class AbsInt:
                     pass
             t = bl['term']
             k = t['k']
+            if b in self.watch:
+                path.snaps.append((len(path.blocks) - 1, b, dict(env)))
             if k == 'goto':
                 b = t['target']
                 continue
@@ -731,6 +873,7 @@ class AbsInt:
                 return
             if k == 'drop':
                 path.calls.append((b, 'drop', (self.read_place(env, t['place']),), None, t))
+                path.callpos.append(len(path.blocks) - 1)
                 b = t['target']
                 continue
             if k == 'assert':
@@ -742,9 +885,21 @@ class AbsInt:
                 argvals = tuple(self.eval_op(env, a) for a in t['args'])
                 dkey = self.resolve_key(env, t['dest'])
                 path.calls.append((b, name, argvals, dkey, t))
+                path.callpos.append(len(path.blocks) - 1)
                 res = None
                 if self.decide_call:
                     res = self.decide_call(name, argvals, t)
+                if res is None and name.endswith('Try>::branch') and argvals and argvals[0][0] == 'agg' and \
+                        argvals[0][1] in ('core::result::Result', 'core::option::Option') and argvals[0][2] in ('Ok', 'Err', 'Some', 'None'):
+                    a0 = argvals[0]
+                    if a0[2] in ('Ok', 'Some'):
+                        res = ('agg', 'core::ops::control_flow::ControlFlow', 'Continue', a0[3])
+                    else:
+                        res = ('agg', 'core::ops::control_flow::ControlFlow', 'Break', (('agg', a0[1], a0[2], a0[3]),))
+                if res is None and name.endswith('Try>::branch') and argvals and argvals[0][0] == 'call' and \
+                        argvals[0][1].endswith('::from_residual') and argvals[0][1].startswith(('<core::result::Result<', '<core::option::Option<')):
+                    # a value built by `?` from a residual is an Err: its own `?` propagates it
+                    res = ('agg', 'core::ops::control_flow::ControlFlow', 'Break', (argvals[0],))
                 if res is None:
                     res = ('call', name, argvals, b)
                 self.write_key(env, dkey, res)
@@ -791,6 +946,7 @@ class AbsInt:
                             if len(rest) == 1:
                                 var = rest[0]
                         np.constraints.append((('variant', v[1], v[2], v[3]), var, b))
+                        np.cpos.append(len(path.blocks) - 1)
                         if var and not var.startswith('otherwise:'):
                             # remember the variant of that place for later discriminant reads
                             old = np.env.get(v[1])
@@ -798,6 +954,7 @@ class AbsInt:
                                 np.env[v[1] + '#variant'] = var
                     else:
                         np.constraints.append((('switch', v), val, b))
+                        np.cpos.append(len(path.blocks) - 1)
                     forks.append((tb, np))
                 for tb, np in reversed(forks):
                     work.append((tb, np))
